@@ -371,6 +371,11 @@ func validateFileContracts(ms *MidState, txn types.Transaction, ts V1Transaction
 		leaf := storageProofLeaf(leafIndex, fc.Filesize, sp.Leaf)
 		if leaf == nil {
 			continue
+		} else if fc.Filesize > 0 && len(sp.Proof) < bits.Len64(leafIndex^lastLeafIndex(fc.Filesize)) {
+			// a proof shorter than the height at which the leaf's path merges
+			// with the last leaf's path would be interpreted as the proof of
+			// a different leaf
+			return fmt.Errorf("storage proof %v has too few proof hashes", i)
 		} else if storageProofRoot(leafIndex, fc.Filesize, leaf, sp.Proof) != fc.FileMerkleRoot {
 			return fmt.Errorf("storage proof %v has root that does not match contract Merkle root", i)
 		}
